@@ -134,6 +134,31 @@ pub fn run(ctx: &Ctx) {
     );
     total_evals += res.accs.iter().sum::<u64>();
     ctx.set("deep_chains", json!({"max_depth": 120, "documents": chains.len()}));
+    // one parent occurring hundreds / tens of thousands of times
+    let many = many_occurrence_docs(ctx.tier.pick(1100, 70_000));
+    let res = par_for(
+        many.len() as u64,
+        ctx.threads,
+        1,
+        Some(ctx.deadline),
+        |_| 0u64,
+        |acc, i| {
+            let d = &many[i as usize];
+            for h in [vec![d], vec![d, d]] {
+                if let Ok(el) = run_history(&h) {
+                    let mut vs = judge(&h, &el, (1 << 54) | i);
+                    for v in vs.iter_mut() {
+                        // keep the report readable: the documents are long
+                        v.summary = format!("{} … [{} bytes]", v.summary.chars().take(300).collect::<String>(), d.xml.len());
+                    }
+                    ctx.report_all(vs);
+                    *acc += 1;
+                }
+            }
+        },
+    );
+    total_evals += res.accs.iter().sum::<u64>();
+    ctx.set("many_occurrences", json!({"documents": many.len()}));
     ctx.set("evaluations", json!(total_evals));
     ctx.set("distinct_nontrivial", json!(all_distinct.len()));
     // (b) histories
@@ -219,9 +244,7 @@ fn names_part(ctx: &Ctx) {
             let subset: Vec<PoolName> = subs[si as usize].iter().map(|&i| pool[i]).collect();
             let mut local = 0u64;
             for_each_tree(&subset, &params, &mut |root| {
-                if !prefix_clash_free(root) {
-                    return;
-                }
+                // C03's statement has no side condition on prefixes: ns:a next to a are two children
                 local += 1;
                 let rank = (1 << 50) | (si << 24) | local.min(0xff_ffff);
                 let mut histories: Vec<Vec<DocEntry>> = vec![vec![DocEntry::from_root(root.clone())]];
